@@ -131,6 +131,30 @@ package engine
 //@   call (*WAL).Remove
 //@     requires [remove_after_flush] st == 2 && arg0 == walFileNames
 
+// ================================================================ C14: duration refresh reaches loaded shards
+//@ prop C14
+// The duration received from the catalogue replaces the loaded shard's duration and its index builder's, whatever
+// its value: 0 means "unlimited" and must overwrite an older finite duration (ALTER ... DURATION INF).
+//@ func (*EngineImpl).UpdateShardDurationInfo
+//@   ghost gib int = 0
+//@   ghost wrote bool = false
+//@   ghost idx bool = false
+//@   call .GetIndexBuilder
+//@     set gib = gib + 1
+//@     frame nothing
+//@   call .GetIdent
+//@     frame nothing
+//@   call .GetDuration
+//@     frame nothing
+//@   store DurationDescriptor.Duration
+//@     set wrote = (val == info.DurationInfo.Duration)
+//@   call .SetDuration
+//@     set idx = (arg0 == info.DurationInfo.Duration)
+//@     frame nothing
+//@   call .SetMergeDuration
+//@     frame nothing
+//@   ensures [duration_always_applied] result == nil && gib >= 2 ==> wrote && idx
+
 // ================================================================ C13: deleted-series table per retention policy
 //@ prop C13
 // Every retention policy has its own table of dropped series ids; a policy's table is attached only to the indexes
